@@ -19,7 +19,7 @@ def evsOf (l : Line) : List _root_.C08.Ev :=
   | "userinfo" => [.userinfo (str l "iss") (str l "tok") (nat l "o.status") (opt l "o.sub")]
   | "introspect" => [.introspect (str l "iss") (presented l) (str l "tok") (nat l "o.status") (bool l "o.active") (list l "o.members")]
   | "revoke" => [.revoke (str l "iss") (presented l) (str l "tok") (nat l "o.status") (bool l "o.performed")]
-  | "endsession" => [.endSession (str l "sub") (str l "client") (nat l "o.status") (bool l "o.terminated")]
+  | "endsession" => [.endSession (str l "iss") (str l "sub") (str l "client") (nat l "o.status") (bool l "o.terminated")]
   | "exchange" => [.exchange (str l "iss") (str l "tok") (bool l "o.success")]
   | "refresh" => [.refresh (str l "iss") (str l "tok") (bool l "o.success") (bool l "o.rotated")]
   | _ => []
